@@ -271,6 +271,13 @@ func (p *c17) Run(c fw.Case, r *fw.Rec) {
 			return true
 		}
 		text := string(it.Src[lo:hi])
+		if strings.Contains(text, "\n") && (strings.Contains(text, "//") || strings.Contains(text, "#") || strings.Contains(text, "/*")) {
+			// a slice holding a comment and a line break is not context-free: where semicolons are inserted and whether
+			// a bracket literal is read as rows depends on the nesting the node was parsed at; the re-parse rule
+			// does not apply (the other span rules do)
+			r.Cover("reparse-skipped:comment-and-line-break-inside-slice")
+			return true
+		}
 		var x ast.Expr
 		var err error
 		if fw.Guard(r, "parser.ParseExpr", func() { x, err = parser.ParseExpr(text) }) {
@@ -289,8 +296,8 @@ func (p *c17) Run(c fw.Case, r *fw.Rec) {
 				}
 			}
 		}
-		if err != nil && strings.Contains(text, "\n") && (strings.Contains(text, "//") || strings.Contains(text, "#")) {
-			// a slice holding a line comment and a line break: where semicolons are inserted after the comment depends on
+		if err != nil && strings.Contains(text, "\n") && (strings.Contains(text, "//") || strings.Contains(text, "#") || strings.Contains(text, "/*")) {
+			// a slice holding a comment and a line break: where semicolons are inserted after the comment depends on
 			// the nesting the node was parsed at, so the slice is not context-free; the re-parse rule does not apply
 			r.Cover("reparse-skipped:line-comment-inside-slice")
 			return true
